@@ -93,13 +93,16 @@ def atEnd : P Unit := do
 /-- `pars.Exact(p) = Seq(Head, p, End).Map(Child(1))` on a fresh state (`Head` holds) -/
 def exact {α} (p : P α) : P α := mapP (seq2 p atEnd) (·.1)
 
+/-- `Any(Seq(c, Int).Child(1), Byte(c).Bind(0)).Map(..)`: the marker byte `c` with an optional
+signed offset (the common shape of `parseHead` and `parseTail`) -/
+def parseMark (c : UInt8) : P Int :=
+  mapP (anyOf [mapP (seq2 (byte c) int) (·.2), (do byte c; pure 0)]) id
+
 /-- `parseHead = Any(Seq('^', Int).Child(1), Byte('^').Bind(0)).Map(Head)` (as the offset) -/
-def parseHead : P Int :=
-  mapP (anyOf [mapP (seq2 (byte 94) int) (·.2), (do byte 94; pure 0)]) id
+def parseHead : P Int := parseMark 94
 
 /-- `parseTail = Any(Seq('$', Int).Child(1), Byte('$').Bind(0)).Map(Tail)` (as the offset) -/
-def parseTail : P Int :=
-  mapP (anyOf [mapP (seq2 (byte 36) int) (·.2), (do byte 36; pure 0)]) id
+def parseTail : P Int := parseMark 36
 
 /-- `parseHeadTail = Seq(parseHead, "..", parseTail).Map(mapHeadTail)` -/
 def parseHeadTail : P Mod :=
